@@ -65,15 +65,15 @@ func init() {
 
 func init() {
 	props["C28"] = &PropSpec{
-		Rules:      []string{"hdr/native", "native/argidx", "native/argrep"},
-		Decides:    "for every native method whose header declares a parameter (or the receiver) as one of the simple built-in value classes (about 1100 argument positions): the accessors the native applies directly to that argument assume only representations that class can have, so a typed overload such as Float#+@1(other: Int) is not implemented by a body that reads a Float; for every method the std headers declare native and for which a native registration on the same class resolves (about 2400 pairs): the registration takes exactly the parameters the header declares (the VM sizes the argument slice from the registration, so fewer means an out-of-range read, more means shifted arguments); and every native method body indexes its argument slice only within the parameter count it is registered with.",
+		Rules:      []string{"hdr/native", "native/argidx", "native/argrep", "arith/result-follows-operand"},
+		Decides:    "that the mixed-kind arithmetic methods behind Int, Float and BigFloat operators return every non-error result from inside the dispatch on the operand's representation (the headers declare a different result class per operand class, so a result returned for all operand kinds alike has the wrong class for all but one); for every native method whose header declares a parameter (or the receiver) as one of the simple built-in value classes (about 1100 argument positions): the accessors the native applies directly to that argument assume only representations that class can have, so a typed overload such as Float#+@1(other: Int) is not implemented by a body that reads a Float; for every method the std headers declare native and for which a native registration on the same class resolves (about 2400 pairs): the registration takes exactly the parameters the header declares (the VM sizes the argument slice from the registration, so fewer means an out-of-range read, more means shifted arguments); and every native method body indexes its argument slice only within the parameter count it is registered with.",
 		NotCovered: "native methods reached only through included mixins or through containers the analysis does not resolve (counted in the evidence, not decided); parameter and return *types* (see C01/C02 rules); thrown-error classes; semantic correctness of results.",
 	}
 }
 
 func init() {
 	props["C06"] = &PropSpec{
-		Rules:      []string{"bigint/truncdiv", "bigint/nomutate", "bigint/normalise"},
+		Rules:      []string{"bigint/truncdiv", "bigint/nomutate", "bigint/normalise", "arith/result-follows-operand"},
 		Decides:    "three representation-independence conditions of Int arithmetic: (1) no Euclidean big.Int division/modulo anywhere in the runtime, so big and small operands divide the same way; (2) no math/big operation writes into the storage of an existing Int (Int values are shared by reference, so this would change other variables); (3) every *BigInt returned from Int arithmetic sits on the failing branch of a fits-in-SmallInt test, so an integer has one representation.",
 		NotCovered: "the arithmetic correctness of the overflow predicates (AddOverflow, MultiplyOverflow, ...) and of math/big themselves: these depend on operand values, not on the shape of the code.",
 	}
@@ -124,8 +124,8 @@ func init() {
 		NotCovered: "that equal values hash equally, transitivity, and numeric agreement across Int/Float precision boundaries: they depend on the values compared. Reflexivity and symmetry of == for collections.",
 	}
 	props["C20"] = &PropSpec{
-		Rules:      []string{"str/units"},
-		Decides:    "unit consistency of the string implementation: in value/string.go, value/char.go and the native String methods, no comparison or addition/subtraction mixes a byte quantity (len, ByteCount), a code-point quantity (RuneCount, CharCount, Length) and a grapheme quantity (uniseg counts, GraphemeCount), given the documented unit of each index/length parameter.",
+		Rules:      []string{"str/units", "str/invalid-byte-source"},
+		Decides:    "that the raw byte substituted for an invalid UTF-8 byte is the one at the decode position (first byte after a forward decode, last byte after a backward decode); unit consistency of the string implementation: in value/string.go, value/char.go and the native String methods, no comparison or addition/subtraction mixes a byte quantity (len, ByteCount), a code-point quantity (RuneCount, CharCount, Length) and a grapheme quantity (uniseg counts, GraphemeCount), given the documented unit of each index/length parameter.",
 		NotCovered: "case mapping, comparison, grapheme segmentation, slicing and searching results: they depend on string contents and on the Unicode tables of the Go library, not on the shape of the code.",
 	}
 	props["C21"] = &PropSpec{
